@@ -92,7 +92,8 @@ def tla_set(items):
     return '{' + ', '.join(items) + '}'
 
 
-def tla_constants(wb, pool, src, name, lists=(), settable=None):
+def tla_constants(wb, pool, src, name, lists=(), settable=None, extends='Engine',
+                  extra=''):
     """text of an MC module binding Engine's constants for this workbook"""
     n = nodes(wb)
     defs = []
@@ -122,7 +123,7 @@ def tla_constants(wb, pool, src, name, lists=(), settable=None):
         defs.append(f'{q(a)} :> [kind |-> "Alias", rng |-> {q(r)}]')
     init0 = ' @@ '.join(f'{q(a)} :> {tla_val(v)}' for a, v in sorted(wb['inputs'].items()))
     return f'''---- MODULE {name} ----
-EXTENDS Engine
+EXTENDS {extends}
 MCInputs == {tla_set(map(q, n['inputs']))}
 MCFormulas == {tla_set(map(q, n['formulas']))}
 MCRanges == {tla_set(map(q, n['ranges']))}
@@ -133,11 +134,12 @@ MCPool == {tla_set(tla_val(v) for v in pool)}
 MCSettable == {tla_set(map(q, sorted(wb['inputs']) if settable is None else settable))}
 MCLists == {tla_set(tla_seq(map(q, l)) for l in lists)}
 MCSrc == "{src}"
+{extra}
 ====
 '''
 
 
-ENGINE_CFG = '''CONSTANTS
+CONST_CFG = '''CONSTANTS
   Inputs <- MCInputs
   Formulas <- MCFormulas
   Ranges <- MCRanges
@@ -148,7 +150,9 @@ ENGINE_CFG = '''CONSTANTS
   Lists <- MCLists
   Settable <- MCSettable
   Src <- MCSrc
-SPECIFICATION Spec
+'''
+
+ENGINE_CFG = CONST_CFG + '''SPECIFICATION Spec
 VIEW view
 INVARIANT Coherent
 INVARIANT InputsMirror
@@ -191,6 +195,13 @@ def addr(n):
 
 # ---------------------------------------------------------------------------
 WORKBOOKS = {
+    # DESIGN C08: x uses a member of the range directly, s the range
+    'trimex': dict(
+        inputs={'A1': 1, 'B1': 2, 'A2': 5},
+        formulas={'C1': ('Plus', ['A1'], 1), 'D1': ('SumR', 'A1:B1'),
+                  'E1': ('Plus', ['C1', 'D1'], 0), 'C2': ('Plus', ['A2'], 1),
+                  'E2': ('Plus', ['E1', 'C2'], 0)},
+        ranges={'A1:B1': [['A1', 'B1']]}),
     # scalar chain; Cat reveals the type of what it reads
     'chain': dict(
         inputs={'A1': 1, 'A2': 2},
